@@ -4,7 +4,7 @@ CONSTANTS
   N = 3
   NVals = 2
   Ops = {"New", "ParseAbsent", "ParsePresent", "DeepCopy", "MkCopy", "UpdateFrom", "MutateNested", "Drop"}
-  MaxOps = 4
+  MaxOps = 2
   ShareAbsent = FALSE
   ShallowCopy = FALSE
 CONSTRAINT EmitLeaf
